@@ -246,6 +246,38 @@ def opRng : P (List String) := do
   let g := Mt19937.seed (UInt32.ofNat (seed % 4294967296).toNat)
   pure [kv "d" (showFs (g.draws n).toList)]
 
+/-- `initf kind assort K L ncalls <draws> <list>` — the initialiser functors on a scripted stream of draws (cyclic),
+called `ncalls` times in a row on the same generator (kind r: random symmetric start; f: caller's tensor plus noise,
+`list` = the caller's tensor; m: rows of a membership matrix, `L` = number of rows, `list` = the row indices) -/
+def opInitf : P (List String) := do
+  let kind ← tok
+  let assort ← bool
+  let K ← nat; let L ← nat; let ncalls ← nat
+  let ds ← flts
+  let d : Nat → Float := fun t => ds.toArray.getD (t % ds.length) 0.0
+  let mut pos := 0
+  let mut out : List String := []
+  if kind = "m" then
+    let els ← (do let n ← nat; many n nat)
+    let mut prev : Tens Float := Tens.zeros L K 1
+    for i in [0:ncalls] do
+      let p0 := pos
+      let pv := prev
+      let r := initRows L K els (fun j k => pv.get j k 0) (fun t => d (p0 + t))
+      prev := r.1
+      pos := pos + r.2
+      out := out ++ [kv s!"t{i}" (showFs r.1.data.toList), kv s!"pos{i}" (toString pos)]
+  else
+    let aff ← flts
+    let userW : Tens Float := Tens.ofData K (if assort then 1 else K) L aff.toArray
+    for i in [0:ncalls] do
+      let p0 := pos
+      let r := if kind = "r" then initAffRandom assort K L (fun t => d (p0 + t))
+               else initAffFromInitial assort userW (fun t => d (p0 + t))
+      pos := pos + r.2
+      out := out ++ [kv s!"t{i}" (showFs r.1.data.toList), kv s!"pos{i}" (toString pos)]
+  pure out
+
 def runLine (line : String) : String :=
   let toks := (line.trimAscii.toString.splitOn " ").filter (· ≠ "") |>.toArray
   if toks.size < 2 then "" else
@@ -259,6 +291,7 @@ def runLine (line : String) : String :=
     | "run" => opRun
     | "validate" => opValidate
     | "rng" => opRng
+    | "initf" => opInitf
     | "readadj" => Cli.opReadAdj
     | "readaff" => Cli.opReadAff
     | "waff" => Cli.opWaff
